@@ -27,6 +27,7 @@ type Options struct {
 	NoMemLimit bool          // race-detector binaries cannot run under RLIMIT_AS
 	Watchdog   time.Duration // per-job wall-clock watchdog (generous; firing is never a verdict by itself)
 	Isolated   time.Duration // budget of the isolated re-run after the watchdog fired
+	MaxFirings int           // after this many watchdog firings the remaining jobs are skipped (the run is then inconclusive)
 }
 
 type Stats struct {
@@ -35,6 +36,7 @@ type Stats struct {
 	WatchdogFired int64
 	Inconclusive  int64 // watchdog fired but the isolated re-run finished
 	Restarts      int64
+	Skipped       int64 // jobs not run because the watchdog budget was used up
 }
 
 type Pool struct {
@@ -48,10 +50,13 @@ func New(opt Options) *Pool {
 		opt.Workers = 16
 	}
 	if opt.Watchdog == 0 {
-		opt.Watchdog = 60 * time.Second
+		opt.Watchdog = 40 * time.Second
 	}
 	if opt.Isolated == 0 {
-		opt.Isolated = 300 * time.Second
+		opt.Isolated = 120 * time.Second
+	}
+	if opt.MaxFirings == 0 {
+		opt.MaxFirings = 6
 	}
 	return &Pool{opt: opt}
 }
@@ -223,6 +228,14 @@ func (p *Pool) Run(jobs <-chan *proto.Job, handle func(*proto.Job, *proto.Result
 			var w *worker
 			defer func() { w.kill() }()
 			for job := range jobs {
+				if atomic.LoadInt64(&p.Stats.WatchdogFired) >= int64(p.opt.MaxFirings) {
+					atomic.AddInt64(&p.Stats.Skipped, 1)
+					continue
+				}
+				if job.Fresh && w != nil {
+					w.kill()
+					w = nil
+				}
 				if w == nil {
 					var err error
 					if w, err = p.start(); err != nil {
@@ -239,6 +252,7 @@ func (p *Pool) Run(jobs <-chan *proto.Job, handle func(*proto.Job, *proto.Result
 					atomic.AddInt64(&p.Stats.WatchdogFired, 1)
 					dump, _ := w.reap(syscall.SIGQUIT)
 					w = nil
+					blockedIn := blockedLibraryFrame(dump)
 					// isolated re-run with a generous budget
 					iw, serr := p.start()
 					if serr != nil {
@@ -256,9 +270,13 @@ func (p *Pool) Run(jobs <-chan *proto.Job, handle func(*proto.Job, *proto.Result
 						st, werr := iw.reap(0)
 						atomic.AddInt64(&p.Stats.WorkerDeaths, 1)
 						res = &proto.Result{ID: job.ID, Fatal: classifyDeath(st, werr)}
+					} else if blockedIn != "" {
+						// Alone the job returns at once, inside the long-lived worker it sat blocked (not running) in the
+						// library for the whole watchdog period: the hang depends on what the process did before.
+						iw.kill()
+						res = &proto.Result{ID: job.ID, Fatal: &proto.FatalInfo{Kind: "blocked-after-earlier-calls", Func: blockedIn, Stderr: truncS(dump, 3000)}}
 					} else {
 						atomic.AddInt64(&p.Stats.Inconclusive, 1)
-						_ = dump
 						res = r2
 						w = iw
 					}
@@ -286,4 +304,25 @@ func truncS(s string, n int) string {
 		return s[:n] + "…"
 	}
 	return s
+}
+
+var reGoroutine = regexp.MustCompile(`(?m)^goroutine \d+ \[([^\]]+)\]:\n((?:.+\n)+)`)
+
+// blockedLibraryFrame looks at a SIGQUIT dump: if the goroutine that runs the job (it has a vworker main.* frame) is
+// blocked - not running or runnable - with a frame of the library on its stack, the innermost library frame is returned.
+func blockedLibraryFrame(dump string) string {
+	for _, m := range reGoroutine.FindAllStringSubmatch(dump, -1) {
+		state, stack := m[1], m[2]
+		if !strings.Contains(stack, "main.runJob") && !strings.Contains(stack, "main.(*built).call") {
+			continue
+		}
+		if strings.HasPrefix(state, "running") || strings.HasPrefix(state, "runnable") || strings.HasPrefix(state, "syscall") {
+			return ""
+		}
+		if f := reFrame.FindStringSubmatch(stack); f != nil {
+			fn := strings.TrimPrefix(f[1], "github.com/jsightapi/")
+			return strings.TrimPrefix(fn, "jsight-api-core/") + " [" + strings.Split(state, ",")[0] + "]"
+		}
+	}
+	return ""
 }
